@@ -192,6 +192,7 @@ static inline int myth_wake_one_from_queue(myth_sleep_queue_t * q,
     to_wake = myth_sleep_queue_deq_th(q);
     if (to_wake) break;
     failed++;
+    MYTH_VERIF_SPIN(mythv_p_wake_wait, q->head);
     empty_loop(100);
   }
   /* wake up this guy */
@@ -262,6 +263,7 @@ static inline int myth_wake_many_from_queue(myth_sleep_queue_t * q,
     myth_thread_t to_wake = 0;
     while (!to_wake) {
       to_wake = myth_sleep_queue_deq_th(q);
+      if (!to_wake) { MYTH_VERIF_SPIN(mythv_p_wake_wait, q->head); }
     }
     to_wake->env = env;
     to_wake->next = 0;
@@ -376,6 +378,7 @@ static inline int myth_wake_many_from_stack(myth_sleep_stack_t * s,
     myth_thread_t to_wake = 0;
     while (!to_wake) {
       to_wake = myth_sleep_stack_pop_th(s);
+      if (!to_wake) { MYTH_VERIF_SPIN(mythv_p_wake_wait, s->top); }
     }
     to_wake->env = env;
     to_wake->next = 0;
@@ -419,9 +422,12 @@ static inline int myth_once_try_set(myth_once_t * once_control,
 
 static inline int myth_once_wait_until(myth_once_t * once_control,
 				       int state) {
+  MYTH_VERIF_POINT(mythv_p_once_load, once_control->state);
   int s = once_control->state;
   while (s != state) {
+    MYTH_VERIF_YSPIN(mythv_p_once_wait, once_control->state);
     myth_yield();
+    MYTH_VERIF_POINT(mythv_p_once_load, once_control->state);
     s = once_control->state;
   }
   return 0;
@@ -429,11 +435,13 @@ static inline int myth_once_wait_until(myth_once_t * once_control,
 
 static inline int
 myth_once_body(myth_once_t * once_control, void (*init_routine)(void)) {
+  MYTH_VERIF_POINT(mythv_p_once_load, once_control->state);
   int s = once_control->state;
   if (s == myth_once_state_init) {
    if (myth_once_try_set(once_control, myth_once_state_init,
 			 myth_once_state_in_progress)) {
      init_routine();
+     MYTH_VERIF_POINT(mythv_p_once_store, once_control->state);
      once_control->state = myth_once_state_completed;
      return 0;
    }
@@ -471,6 +479,7 @@ static inline int myth_mutex_destroy_body(myth_mutex_t * mutex)
 static inline int myth_mutex_trylock_body(myth_mutex_t * mutex) {
   /* TODO: spin block */
   while (1) {
+    MYTH_VERIF_POINT(mythv_p_mutex_load, mutex->state);
     long s = mutex->state;
     /* check the lock bit */
     if (s & 1) {
@@ -521,6 +530,7 @@ static inline int myth_mutex_lock_body(myth_mutex_t * mutex) {
   /* TODO: spin block */
   int failed = 0;
   while (1) {
+    MYTH_VERIF_POINT(mythv_p_mutex_load, mutex->state);
     long s = mutex->state;
     assert(s >= 0);
     /* check lock bit */
@@ -590,6 +600,7 @@ static void * myth_mutex_clear_lock_bit(void * mutex_) {
 static inline int myth_mutex_unlock_body(myth_mutex_t * mutex) {
   int failed = 0;
   while (1) {
+    MYTH_VERIF_POINT(mythv_p_mutex_load, mutex->state);
     long s = mutex->state;
     /* the mutex must be locked now (by me). 
        TODO: a better diagnosis message */
@@ -851,6 +862,7 @@ static inline int myth_barrier_destroy_body(myth_barrier_t * barrier) {
 
 static inline int myth_barrier_wait_body(myth_barrier_t * barrier) {
   while (1) {
+    MYTH_VERIF_POINT(mythv_p_barrier_load, barrier->state);
     long c = barrier->state;
     if (c >= barrier->n_threads) {
       /* TODO: set errno and return */
@@ -865,6 +877,7 @@ static inline int myth_barrier_wait_body(myth_barrier_t * barrier) {
     if (c == barrier->n_threads - 1) {
       /* I am the last one. wake up all guys.
 	 TODO: spin block */
+      MYTH_VERIF_POINT(mythv_p_barrier_reset, barrier->state);
       barrier->state = 0;	/* reset state */
       //myth_wake_many_from_queue(barrier->sleep_q, 0, 0, c);
       myth_wake_many_from_stack(barrier->sleep_s, 0, 0, c);
@@ -928,6 +941,7 @@ myth_join_counter_init_body(myth_join_counter_t * jc,
 
 static inline int myth_join_counter_wait_body(myth_join_counter_t * jc) {
   while (1) {
+    MYTH_VERIF_POINT(mythv_p_jc_load, jc->state);
     long s = jc->state;
     if ((s & jc->state_mask) == jc->n_threads) {
       return 0;
@@ -946,6 +960,7 @@ static inline int myth_join_counter_wait_body(myth_join_counter_t * jc) {
 
 static inline int myth_join_counter_dec_body(myth_join_counter_t * jc) {
   while (1) {
+    MYTH_VERIF_POINT(mythv_p_jc_load, jc->state);
     long s = jc->state;
     long n_decs = s & jc->state_mask;
     if (n_decs >= jc->n_threads) {
@@ -1058,6 +1073,7 @@ MYTH_CTX_CALLBACK
 void myth_uncond_wait_cb(void *arg1,void *arg2,void *arg3) {
   myth_uncond_t * u = arg1;
   myth_thread_t cur = arg2;
+  MYTH_VERIF_POINT(mythv_p_uncond_pub, u->th);
   u->th = cur;
 }
 
@@ -1087,11 +1103,14 @@ static inline int myth_uncond_wait_body(myth_uncond_t * u) {
 
 static inline int myth_uncond_signal_body(myth_uncond_t * u) {
   myth_running_env_t env = myth_get_current_env();
+  MYTH_VERIF_POINT(mythv_p_uncond_load, u->th);
   myth_thread_t to_wake = u->th;
   while (!to_wake) {
+    MYTH_VERIF_SPIN(mythv_p_uncond_wait, u->th);
     to_wake = u->th;
   }
   to_wake->env = env;
+  MYTH_VERIF_POINT(mythv_p_uncond_clear, u->th);
   u->th = 0;
   myth_queue_push(&env->runnable_q, to_wake);
   return 0;
